@@ -5,90 +5,39 @@ Import ListNotations.
 Open Scope string_scope.
 Open Scope list_scope.
 
-Lemma forallb_In {A} (f : A -> bool) l x : forallb f l = true -> In x l -> f x = true.
-Proof. intros H Hx. exact (proj1 (forallb_forall f l) H x Hx). Qed.
-
-Ltac fa H x Hx := let H' := fresh in pose proof (forallb_In _ _ x H Hx) as H'; cbv beta in H'; clear H; rename H' into H.
-
 Lemma defaults_build_ok : snd (defaults_new colors defaults_schema DEFAULTS) = None.
 Proof. vm_compute. reflexivity. Qed.
 
 Lemma ctor_ok : ctor_forwards_style = true.
 Proof. vm_compute. reflexivity. Qed.
 
-Lemma ctor_forall cls ok why : In (cls, (ok, why)) ctor_style -> ok = true.
-Proof.
-  intros Hin. pose proof ctor_ok as H. unfold ctor_forwards_style in H.
-  exact (forallb_In _ _ _ H Hin).
-Qed.
-
 Lemma separator_free_ok : separator_free = true.
 Proof. vm_compute. reflexivity. Qed.
 
-Lemma separator_free_forall cs n :
-  In cs (("defaults", defaults_schema) :: style_classes) -> In n (all_names (snd cs)) -> has_char us n = false.
-Proof.
-  intros H1 H2. pose proof separator_free_ok as H. unfold separator_free in H.
-  fa H cs H1. fa H n H2. destruct (has_char us n); [discriminate H|reflexivity].
-Qed.
-
 Lemma lw_all_ok : lw_all = true.
-Proof. vm_compute. reflexivity. Qed.
-
-Lemma lw_forall cs p k al v1 v2 n1 n2 :
-  In cs style_classes -> In (p, k, al) (sleaves (snd cs)) -> shadowed (snd cs) p = false ->
-  In v1 (two k) -> In v2 (two k) -> In n1 (notations p) -> In n2 (notations p) ->
-  lw_holds (snd cs) p v1 v2 n1 n2 = true.
-Proof.
-  intros H1 H2 Hs H3 H4 H5 H6. pose proof lw_all_ok as H. unfold lw_all in H.
-  fa H cs H1. fa H (p, k, al) H2. apply orb_prop in H. destruct H as [Hc|H].
-  - assert (X : shadowed (snd cs) p = true) by exact Hc. rewrite Hs in X. discriminate X.
-  - fa H v1 H3. fa H v2 H4. fa H n1 H5. fa H n2 H6. exact H.
-Qed.
-
-(* the alias: after arrow.size = 2 (attribute), update(magnetization_arrow_size=0.5) leaves 2 *)
-Lemma lw_alias_witness :
-  lw_holds schema_MagnetStyle ["magnetization"; "arrow"; "size"] (VInt 2) (VFlt 1 2) NAttr (NUnder 0) = false
-  /\ leaf_is schema_MagnetStyle
-       (fst (set_leaf schema_MagnetStyle
-               (fst (set_leaf schema_MagnetStyle (fresh_state schema_MagnetStyle)
-                              ["magnetization"; "arrow"; "size"] (Some (VInt 2)) NAttr))
-               ["magnetization"; "arrow"; "size"] (Some (VFlt 1 2)) (NUnder 0)))
-       ["magnetization"; "arrow"; "size"] (Some (VInt 2)) = true.
-Proof. split; vm_compute; reflexivity. Qed.
+Proof. vm_cast_no_check (eq_refl true). Qed.
 
 Definition p_asize : path := ["magnetization"; "arrow"; "size"].
 
-Lemma lw_unrestricted_false :
-  ~ (forall cs p k al v1 v2 n1 n2,
-       In cs style_classes -> In (p, k, al) (sleaves (snd cs)) ->
-       In v1 (two k) -> In v2 (two k) -> In n1 (notations p) -> In n2 (notations p) ->
-       lw_holds (snd cs) p v1 v2 n1 n2 = true).
+(* the alias: after arrow.size = 2 (attribute), update(magnetization_arrow_size=0.5) leaves 2 *)
+Lemma lw_alias_witness :
+  In ("MagnetStyle", schema_MagnetStyle) style_classes /\
+  In (p_asize, KNumGe0, false) (sleaves schema_MagnetStyle) /\
+  In (VInt 2) (two KNumGe0) /\ In (VFlt 1 2) (two KNumGe0) /\
+  In NAttr (notations p_asize) /\ In (NUnder 0) (notations p_asize) /\
+  lw_holds schema_MagnetStyle p_asize (VInt 2) (VFlt 1 2) NAttr (NUnder 0) = false /\
+  leaf_is schema_MagnetStyle
+       (fst (set_leaf schema_MagnetStyle
+               (fst (set_leaf schema_MagnetStyle (fresh_state schema_MagnetStyle) p_asize (Some (VInt 2)) NAttr))
+               p_asize (Some (VFlt 1 2)) (NUnder 0)))
+       p_asize (Some (VInt 2)) = true.
 Proof.
-  intros H.
-  specialize (H ("MagnetStyle", schema_MagnetStyle) p_asize KNumGe0 false (VInt 2) (VFlt 1 2) NAttr (NUnder 0)).
-  assert (E : lw_holds schema_MagnetStyle p_asize (VInt 2) (VFlt 1 2) NAttr (NUnder 0) = false)
-    by (vm_compute; reflexivity).
-  assert (X : lw_holds schema_MagnetStyle p_asize (VInt 2) (VFlt 1 2) NAttr (NUnder 0) = true).
-  { apply H.
-    - right; left; reflexivity.
-    - apply (nth_error_In _ (leaf_index schema_MagnetStyle p_asize)). vm_compute. reflexivity.
-    - left; reflexivity.
-    - right; left; reflexivity.
-    - left; reflexivity.
-    - right; left; reflexivity. }
-  rewrite E in X. discriminate X.
+  split; [right; left; reflexivity|].
+  split; [apply (nth_error_In _ (leaf_index schema_MagnetStyle p_asize)); vm_compute; reflexivity|].
+  split; [left; reflexivity|]. split; [right; left; reflexivity|].
+  split; [left; reflexivity|]. split; [right; left; reflexivity|].
+  split; vm_compute; reflexivity.
 Qed.
 
 Lemma reject_all_ok : reject_all = true.
-Proof. vm_compute. reflexivity. Qed.
-
-Lemma reject_forall cs p k al n :
-  In cs style_classes -> In (p, k, al) (sleaves (snd cs)) -> In n (notations p) ->
-  rejects_name (snd cs) p n = true /\
-  forall v, In v (bad_vals k) -> rejects_value (snd cs) p v n = true.
-Proof.
-  intros H1 H2 H3. pose proof reject_all_ok as H. unfold reject_all in H.
-  fa H cs H1. fa H (p, k, al) H2. fa H n H3. apply andb_prop in H. destruct H as [Ha Hb].
-  split; [exact Ha|]. intros v Hv. exact (forallb_In _ _ v Hb Hv).
-Qed.
+Proof. vm_cast_no_check (eq_refl true). Qed.
